@@ -17,7 +17,7 @@ KINDS = {
     "MeasureHomodyne": ["angle", "select"], "MeasureHeterodyne": ["cselect"],
     "Kgate": ["real"], "Vgate": ["real"], "CKgate": ["real"],
     "sMZgate": ["angle", "angle"],
-    "Del": [], "New": [],
+    "Del": [], "New": [], "GaussianTransform": ["matrix"], "Interferometer": ["cmatrix"],
 }
 
 
@@ -54,6 +54,12 @@ def mk_op(o):
         return ops.MeasureHeterodyne(**kw)
     if name in ("Del", "New"):
         return None
+    if name == "GaussianTransform":
+        import numpy as np
+        return ops.GaussianTransform(np.array([[float(fr(x)) for x in row] for row in p[0]]))
+    if name == "Interferometer":
+        import numpy as np
+        return ops.Interferometer(np.array([[complex(float(fr(x[0])), float(fr(x[1]))) for x in row] for row in p[0]]))
     if name == "Kgate":
         op = ops.Kgate(float(fr(p[0])))
         return op.H if o.get("dag") else op
